@@ -31,7 +31,7 @@ CHECKS['C12'] = dict(
          "hence re-serialisation is byte-identical; files of minor 3.0-3.3 load with zero defaults for absent fields; a different major / newer minor gives error flag and nothing merged; "
          "identifier mismatch raises the flag. Proved once per combinator (int, string, vector, pair, dependent field) and composed. Correspondence: the extracted codec reproduces "
          "interrogate-written files byte for byte, libinterrogatedb re-writes model-written files (adversarial strings, every minor) to the bytes the model predicts, and every prefix "
-         "of valid files is loaded (error flag / nothing merged / no crash or hang).",
+         "of valid files is loaded (error flag / nothing merged / no crash or hang); the error flag is read twice, as the very first query after the request and after the load, and must agree.",
     note=TB + "truncation behaviour (every prefix) is enumerated, not proved; istream semantics (operator>> for int, get()) are modelled by hand in C12/Codec.v.",
     technique="Coq proof (codec combinators with compositional round-trip lemmas) + byte-exact differential check against libinterrogatedb + exhaustive prefix sweep",
     ref="5/C12")
@@ -39,11 +39,13 @@ CHECKS['C12'] = dict(
 CHECKS['C11'] = dict(
     text="Proof: InterrogateDatabase::remap_indices (model transcribing every record's remap_indices) preserves referential closure for every database and every first index, "
          "numbers all entries consecutively with wrappers first (1..n) and returns the right next_index; closedb/linksb/nodupb are verified checkers (iff with their Prop specification) "
-         "that are then run on every database interrogate produces, turning 'closed for all outputs' into runtime verification with a proved checker. "
+         "that are then run on every database interrogate produces, turning 'closed for all outputs' into runtime verification with a proved checker; flagsb (sound and complete) decides that "
+         "every has-getter/setter/has/clear/del/insert/getkey flag of an element goes together with a non-zero function index (a flag without its index is a reference to nothing that closure, "
+         "which lets 0 pass, cannot see), kept by any remapper that sends exactly 0 to 0; a wrapper's has-return flag is compared with its return type. "
          "Correspondence: libinterrogatedb's load of arbitrarily numbered synthetic databases must reproduce the model remap byte for byte; wrapper signatures recorded in the "
          "database are validated by g++ against the generated definitions (translation validation).",
     note=TB + "that the builder only emits closed databases is observed (verified checker on generated libraries x 8 option sets), not proved; g++ is the oracle for signature agreement.",
-    technique="Coq proof (remap preserves closure, consecutive numbering) + verified runtime checker + differential check of remap against libinterrogatedb + g++ redeclaration check",
+    technique="Coq proof (remap preserves closure, consecutive numbering, flag/reference consistency) + verified runtime checkers + differential check of remap against libinterrogatedb + g++ redeclaration check",
     ref="5/C11")
 
 CHECKS['C20'] = dict(
@@ -104,9 +106,13 @@ CHECKS['C13'] = dict(
          "database in its own fresh range into a closed database is closed; each file receives a contiguous range starting at next_index; merge_with keeps global-ness as the union "
          "and never loses 'fully defined', and the fully defined side survives in either order. Order independence of the whole load is NOT proved (it is false when two files fully "
          "define one global type: recorded finding); it is tested: every load order of generated 2-4 library modules must give the same name-keyed query dump, also with by-name "
-         "lookups interleaved with load requests. Correspondence: the merged database written by libinterrogatedb must equal the extracted load_all byte for byte in every order.",
+         "lookups interleaved with load requests. LAZY LOADING is proved invisible: request_module only queues a file, every function of the query interface first reads the queue, so for "
+         "every history of load requests and queries each query is answered on everything requested before it; the premise (every accessor that interrogate_interface.cxx forwards to, except "
+         "the two module-table lookups, calls check_latest() before it returns or touches a data member) is a vm_compute over a table REGENERATED from the C++ source on every run by "
+         "translate/accessors.py; each by-name lookup kind is also run as the very first query after a load request, and the public request entry point with one reused file-name buffer. "
+         "Correspondence: the merged database written by libinterrogatedb must equal the extracted load_all byte for byte in every order.",
     note=TB + "owner library of non-global incidental types (int, T*, T const) is excluded from the order comparison; order independence is exploration, closure/ranges/flags are proved.",
-    technique="Coq proof (closure preserved by merge, range arithmetic, flag algebra) + byte-exact differential check of load/merge in all permutations + interleaved lookups",
+    technique="Coq proof (closure preserved by merge, range arithmetic, flag algebra; lazy loading invisible, with the accessor table generated from the source by a translator) + byte-exact differential check of load/merge in all permutations + interleaved and first-query lookups",
     ref="5/C13")
 
 CHECKS['C14'] = dict(
